@@ -82,6 +82,8 @@ class Engine:
         self.n_unknown = 0
         self.solver_time = 0.0
         self.truncated = False
+        self.ncalls = 0
+        self.max_branch_calls = 200000
         self.deadline = None        # wall-clock limit of one exploration (time.time() value); exceeding it truncates (reported as cut)
         self._fresh = 0
 
@@ -111,6 +113,9 @@ class Engine:
 
     def branch(self, cond):
         """cond: z3 Bool -> Python bool; records the decision on the current path."""
+        self.ncalls += 1
+        if self.ncalls > self.max_branch_calls:
+            raise Abort("cut")          # a (concretely decided) loop that does not end: bounded like any other path
         cond = z3.simplify(cond)
         if z3.is_true(cond):
             return True
@@ -176,6 +181,7 @@ class Engine:
                 self.truncated = True
                 break
             self.prefix = self.todo.pop()
+            self.ncalls = 0
             self.pos = 0
             self.pc = []
             self.nassumed = 0
@@ -191,7 +197,8 @@ class Engine:
                     def _alarm(signum, frame):
                         raise PathTimeout()
                     old = signal.signal(signal.SIGALRM, _alarm)
-                    signal.setitimer(signal.ITIMER_REAL, self.path_timeout)
+                    # repeating: an exception raised by the handler inside a ctypes callback of z3 is swallowed there, so fire again until it gets through
+                    signal.setitimer(signal.ITIMER_REAL, self.path_timeout, 0.5)
                 try:
                     out = ("ok", fn())
                 except Abort as a:
